@@ -231,10 +231,10 @@ Proof.
 Qed.
 
 Definition namedb (ty : etype) (content : list (etree + cdata)) : bool :=
-  match is_named_in_version T ty ver with Val named => negb named || existsb (is_short T) content | _ => false end.
+  match is_named_in_version T ty ver with Val named => negb named || head_short T content | _ => false end.
 
 Lemma namedb_spec ty content : namedb ty content = true <->
-  exists named, is_named_in_version T ty ver = Val named /\ (named = true -> existsb (is_short T) content = true).
+  exists named, is_named_in_version T ty ver = Val named /\ (named = true -> head_short T content = true).
 Proof.
   unfold namedb. split.
   - destruct (is_named_in_version T ty ver) as [named| |]; try discriminate. intros H. exists named. split; [reflexivity|].
